@@ -76,6 +76,8 @@ pub fn ensure_sidecar(parquet_path: &Path) -> Option<PathBuf> {
     let dir = sidecar_dir(parquet_path);
     let src_meta = std::fs::metadata(parquet_path).ok()?;
     if is_fresh(&dir, &src_meta) {
+        #[cfg(feature = "verif-hooks")]
+        crate::verif::hit("ipc.sidecar.reused");
         return Some(dir);
     }
     if mode() != Mode::Build {
@@ -98,6 +100,8 @@ pub fn ensure_sidecar(parquet_path: &Path) -> Option<PathBuf> {
         );
         return None;
     }
+    #[cfg(feature = "verif-hooks")]
+    crate::verif::hit("ipc.sidecar.built");
     Some(dir)
 }
 
@@ -337,6 +341,11 @@ fn build_sidecar(parquet_path: &Path, dir: &Path, src_meta: &std::fs::Metadata) 
         .ok_or_else(|| QueryError::Execution("source mtime unavailable for stamp".into()))?;
     std::fs::write(dir.join(".complete"), stamp)?;
 
+    // Verification hook: widens the window before publication (no lock of
+    // this module's own is released here; BUILD_LOCK only orders builders).
+    #[cfg(feature = "verif-hooks")]
+    crate::verif::delay("ipc.build.before_publish");
+
     // Atomic publication: rename the staging dir into place. If the final
     // dir exists (stale, or a cross-process racer won), remove-then-rename;
     // if the rename still loses, defer to whatever is there — the fresh
@@ -410,6 +419,11 @@ pub fn read_row_group(
     use arrow::buffer::Buffer;
     use arrow::ipc::reader::{read_footer_length, FileDecoder};
 
+    #[cfg(feature = "verif-hooks")]
+    {
+        crate::verif::hit("ipc.sidecar.read_row_group");
+        crate::verif::delay("ipc.read.before_open");
+    }
     let path = rg_path(dir, rg_idx);
     let file = File::open(&path)?;
     // SAFETY: the sidecar is created atomically by build_sidecar (readers
